@@ -11,9 +11,15 @@ MCScenarios ==
       recs |-> <<<< <<300, 0>>, <<80, 160>> >>, << <<300, 1>>, <<80, 0>> >>, << <<250, 250>>, <<40, 7>> >>, << <<99, 3>>, <<80, 1>> >>, << <<100, 200>>, <<2, 4>> >> >>],
      \* allele counts and called-chromosome counts around 170/171/172 (edge of the factorial table)
      [pops |-> <<90>>, proj |-> <<11>>, recs |-> <<R1(90, 171), R1(90, 170), R1(90, 172), R1(86, 171), R1(85, 170), R1(90, 9), R1(86, 1)>>],
+     \* two populations of 40 and 45 individuals projected to 35 and 3: large and small binomial arguments in
+     \* one run, the same records in two orders (C11: the result must not depend on what was computed before)
+     [pops |-> <<40, 45>>, proj |-> <<71, 7>>,
+      recs |-> <<<< <<40, 70>>, <<45, 3>> >>, << <<40, 5>>, <<45, 80>> >>, << <<39, 66>>, <<44, 1>> >>, << <<36, 1>>, <<3, 6>> >> >>],
+     [pops |-> <<40, 45>>, proj |-> <<71, 7>>,
+      recs |-> <<<< <<36, 1>>, <<3, 6>> >>, << <<39, 66>>, <<44, 1>> >>, << <<40, 5>>, <<45, 80>> >>, << <<40, 70>>, <<45, 3>> >> >>],
      [pops |-> <<40, 30, 20>>, proj |-> <<3, 3, 3>>,
       recs |-> <<<< <<40, 1>>, <<30, 0>>, <<20, 0>> >>, << <<40, 40>>, <<30, 30>>, <<20, 20>> >>, << <<1, 2>>, <<1, 0>>, <<1, 1>> >>, << <<0, 0>>, <<30, 5>>, <<20, 5>> >> >>]}
-MCScenariosQuick == {s \in MCScenarios : s.pops \in {<<600>>, <<90>>, <<40, 30, 20>>} /\ s.proj # <<601>>}
+MCScenariosQuick == {s \in MCScenarios : s.pops \in {<<600>>, <<90>>, <<40, 45>>, <<40, 30, 20>>} /\ s.proj # <<601>>}
                     \cup {[pops |-> <<600>>, proj |-> <<601>>, recs |-> <<R1(600, 0), R1(600, 1), R1(600, 2), R1(550, 37)>>]}
 ASSUME \A s \in MCScenarios : Len(s.pops) = Len(s.proj)
 =============================================================================
